@@ -663,6 +663,8 @@ func report(cfg *Config, results []*HarnessResult, files, pats []string, loadS, 
 		}
 		for k, v := range r.Dropped {
 			dropReasons[k] += v
+			// a path the executor could not follow to its end is a hole in the exploration, not a pass
+			inconclusive = append(inconclusive, fmt.Sprintf("%s: %d path(s) not explored to the end (%s)", r.Name, v, k))
 		}
 		hb := map[string]interface{}{}
 		for k, v := range r.Bounds {
